@@ -62,6 +62,10 @@ def run(tier, seed, which="C15"):
     V = kv.Verdict("C15", tier, seed)
     wd = kv.workdir("c15")
     rng = random.Random(seed)
+    r0 = kv.run_tlc("MC_RoundTrip", "MC_RoundTrip_q.cfg" if tier == "quick" else "MC_RoundTrip_t.cfg", wd, workers=8, timeout=3000, heap="6g")
+    V.add_tlc(r0)
+    if not r0.ok:
+        raise kv.Broken("MC_RoundTrip: the modelled writers and readers are not inverse: %s" % r0.out[-500:])
     S = scenarios(rng, tier)
     per = 6
     batches = [S[i:i + per] for i in range(0, len(S), per)]
@@ -90,6 +94,7 @@ def run(tier, seed, which="C15"):
             out.append(e)
             if e.get("e") == "Ret" and e.get("op") == "write" and e.get("rc") == 0:
                 out.append(tokenize_out.layout(e["file"], e["fmt"]))
+                out.append(dict(e="Lines", fmt=e["fmt"], lines=tokenize_out.layout(e["file"])if False else [list(x) for x in tokenize_out._lines(e["file"])]))
         kv.write_ndjson(tp, out)
         res = kv.run_tlc("WriterTrace", "WriterTrace.cfg", bwd, trace=tp, timeout=900, heap="3g")
         return bi, tp, rc, err, res, out
@@ -107,6 +112,9 @@ def run(tier, seed, which="C15"):
                 cur = e["text"]
             if e.get("e") == "Obj":
                 objs[cur] = e
+        for (ln, sid, items) in res.divs:
+            V.divergence("scenario %s: %s" % (sid, ",".join(sorted(items))))
+        V.extra["files_compared_line_by_line"] = V.extra.get("files_compared_line_by_line", 0) + sum(1 for e in ev if e.get("e") == "Lines")
         for (ln, sid, items) in res.fails:
             e = ev[ln - 1]
             o = objs.get(sid, {})
